@@ -472,6 +472,8 @@ kll_sketch<T, C, A> kll_sketch<T, C, A>::deserialize(std::istream& is, const Ser
     num_levels = read<uint8_t>(is);
     read<uint8_t>(is); // skip unused byte
   }
+  if (k < kll_constants::MIN_K) throw std::invalid_argument("Possible corruption: k must be >= " + std::to_string(kll_constants::MIN_K) + ": " + std::to_string(k));
+  if (num_levels == 0 || num_levels > 60) throw std::invalid_argument("Possible corruption: number of levels: " + std::to_string(num_levels));
   vector_u32 levels(num_levels + 1, 0, allocator);
   const uint32_t capacity(kll_helper::compute_total_capacity(k, m, num_levels));
   if (is_single_item) {
@@ -481,6 +483,7 @@ kll_sketch<T, C, A> kll_sketch<T, C, A>::deserialize(std::istream& is, const Ser
     read(is, levels.data(), sizeof(levels[0]) * num_levels);
   }
   levels[num_levels] = capacity;
+  check_levels(n, num_levels, levels);
   optional<T> tmp; // space to deserialize min and max
   optional<T> min_item;
   optional<T> max_item;
@@ -556,6 +559,8 @@ kll_sketch<T, C, A> kll_sketch<T, C, A>::deserialize(const void* bytes, size_t s
     ptr += copy_from_mem(ptr, num_levels);
     ptr += sizeof(uint8_t); // skip unused byte
   }
+  if (k < kll_constants::MIN_K) throw std::invalid_argument("Possible corruption: k must be >= " + std::to_string(kll_constants::MIN_K) + ": " + std::to_string(k));
+  if (num_levels == 0 || num_levels > 60) throw std::invalid_argument("Possible corruption: number of levels: " + std::to_string(num_levels));
   vector_u32 levels(num_levels + 1, 0, allocator);
   const uint32_t capacity(kll_helper::compute_total_capacity(k, m, num_levels));
   if (is_single_item) {
@@ -566,6 +571,7 @@ kll_sketch<T, C, A> kll_sketch<T, C, A>::deserialize(const void* bytes, size_t s
     ptr += copy_from_mem(ptr, levels.data(), sizeof(levels[0]) * num_levels);
   }
   levels[num_levels] = capacity;
+  check_levels(n, num_levels, levels);
   optional<T> tmp; // space to deserialize min and max
   optional<T> min_item;
   optional<T> max_item;
@@ -898,6 +904,19 @@ void kll_sketch<T, C, A>::check_family_id(uint8_t family_id) {
   if (family_id != FAMILY) {
     throw std::invalid_argument("Possible corruption: family mismatch: expected "
         + std::to_string(FAMILY) + ", got " + std::to_string(family_id));
+  }
+}
+
+template<typename T, typename C, typename A>
+void kll_sketch<T, C, A>::check_levels(uint64_t n, uint8_t num_levels, const vector_u32& levels) {
+  // the levels array is a non-decreasing partition of the items buffer whose weights add up to n
+  uint64_t total_weight = 0;
+  for (uint8_t lvl = 0; lvl < num_levels; ++lvl) {
+    if (levels[lvl] > levels[lvl + 1]) throw std::invalid_argument("Possible corruption: levels array is not monotonic");
+    total_weight += static_cast<uint64_t>(levels[lvl + 1] - levels[lvl]) << lvl;
+  }
+  if (total_weight != n) {
+    throw std::invalid_argument("Possible corruption: n = " + std::to_string(n) + " does not match the total weight of the levels: " + std::to_string(total_weight));
   }
 }
 
